@@ -437,8 +437,21 @@ func TestC15(t *testing.T) {
 		t.Fatalf("VIOLATION C15 %s", x.msg)
 	}
 	// ---- part 2 ----
+	equivalence(t, f, stats, "C15", nil)
+}
+
+// equivalence is part 2 of C15, also run (restricted to their operations) as a tier of the properties whose
+// requests travel through the front ends: a well-formed abstract request rendered to HTTP and to gRPC must reach the
+// kernel as the same t_api.Request.
+func equivalence(t *testing.T, f *Fronts, stats *core.Stats, prop string, ops map[string]bool) {
 	rapid.Check(t, func(rt *rapid.T) {
 		p := genPair(rt)
+		for tries := 0; ops != nil && !ops[strings.SplitN(p.name, ":", 2)[0]] && tries < 200; tries++ {
+			p = genPair(rt)
+		}
+		if ops != nil && !ops[strings.SplitN(p.name, ":", 2)[0]] {
+			rt.Skip("no operation of this property drawn")
+		}
 		stats.Eval()
 		var captured []*t_api.Request
 		f.Stub.Res = func(r *t_api.Request) (*t_api.Response, error) {
@@ -455,7 +468,7 @@ func TestC15(t *testing.T) {
 		fail := func(format string, a ...any) {
 			msg := fmt.Sprintf(format, a...)
 			core.SaveFailure("last", map[string]any{"violation": msg, "http": fmt.Sprintf("%s %s %s %v", p.method, p.path, body, p.headers)})
-			rt.Fatalf("VIOLATION C15 %s", msg)
+			rt.Fatalf("VIOLATION %s %s", prop, msg)
 		}
 		if hr.Panic != nil || gr.Panic != nil {
 			fail("%s: panic http=%v grpc=%v (HTTP %s %s %s)", p.name, hr.Panic, gr.Panic, p.method, p.path, body)
@@ -479,4 +492,23 @@ func TestC15(t *testing.T) {
 			stats.Nontriv(p.name+a, map[string]any{"http": fmt.Sprintf("%s %s %s %v", p.method, p.path, truncate(body, 200), p.headers), "kernel_request": truncate(a, 300)})
 		}
 	})
+}
+
+// TestEquiv — the request-translation tier of another property (VERIF_PROP), restricted to its operations (VERIF_EQUIV_OPS).
+func TestEquiv(t *testing.T) {
+	prop := core.Env("VERIF_PROP", "C15")
+	ops := map[string]bool{}
+	for _, o := range strings.Split(core.Env("VERIF_EQUIV_OPS", ""), ",") {
+		if o != "" {
+			ops[o] = true
+		}
+	}
+	stats := core.NewStats(prop, "tier (f), front ends: well-formed abstract requests of this property's operations ("+core.Env("VERIF_EQUIV_OPS", "")+") rendered to HTTP and to gRPC, through the real gin handler and the real gRPC service methods, must reach the kernel as the same t_api.Request (nil == empty, request tags apart): the fields the statement speaks about (keys, strict flag, states, counters, ttl, tags, time-outs, receivers) travel unchanged through both protocols. Non-trivial: a request with >=1 optional field set. Distinct = request rendering.")
+	defer stats.Write()
+	f := NewFronts()
+	defer f.Close()
+	if len(ops) == 0 {
+		ops = nil // every operation
+	}
+	equivalence(t, f, stats, prop, ops)
 }
